@@ -305,7 +305,7 @@ def how(rng, mode):
 def gen_oneshots(rng, mode, N):
     ncl = rng.range(1, 50)
     clos = [{"form": pick_form(rng, mode), "rules": []} for _ in range(ncl)]
-    ntask = rng.choice([1, 2, 5, 20, 60, 120, 200])
+    ntask = rng.choice([1, 2, 5, 20, 60, 120, 200, 300, 600, 1200])   # bursts beyond any small fixed queue capacity (seeded C11c: 256)
     ntimes = rng.choice([1, 2, 3, 8, N])
     times = [rng.range(4, 4 * N + 3) for _ in range(ntimes)]
     init = [[rng.choice(times), rng.below(ncl)] for _ in range(ntask)]
